@@ -1,0 +1,333 @@
+//go:build verif
+
+package packet
+
+// Contracts for the govc verifier (/verif). This file contains comments only
+// and is compiled only with -tags verif; it adds no declarations.
+//
+// Byte-level specification functions (be16, vlen, uvn, uvval, varint_at) are
+// in /verif/trusted/std.contracts next to the contracts of encoding/binary.
+
+// ---------------------------------------------------------------- errors
+//
+//@ func makeError(typ Type, format string, arguments []interface{}) (e *Error)
+//@   ensures [nonnil] e != nil
+//@   ensures [fresh] fresh(e)
+//@ func insufficientBufferSize(t Type) (err error)
+//@   ensures [nonnil] err != nil
+
+// ---------------------------------------------------------------- small predicates
+//
+//@ func (qos QOS) Successful() (ok bool)
+//@   ensures ok <==> qos <= 2
+//@ func (id ID) Valid() (ok bool)
+//@   ensures ok <==> id != 0
+//@ func (cc ConnackCode) Valid() (ok bool)
+//@   ensures ok <==> cc <= 5
+//@ spec func dflags(t int) int = t == 6 || t == 8 || t == 10 ? 2 : 0
+//@ func (t Type) defaultFlags() (f byte)
+//@   ensures f == dflags(t)
+
+// ---------------------------------------------------------------- coding.go
+//
+//@ func readUint(buf []byte, width int, t Type) (num uint64, n int, err error)
+//@   requires [width] width == 1 || width == 2 || width == 4 || width == 8
+//@   ensures [ok]   err == nil <==> len(buf) >= width
+//@   ensures [n]    err == nil ==> n == width
+//@   ensures [nerr] err != nil ==> n == 0 && num == 0
+//@   ensures [v1]   err == nil && width == 1 ==> num == buf[0]
+//@   ensures [v2]   err == nil && width == 2 ==> num == be16(buf, 0)
+//
+//@ func readUint8(buf []byte, t Type) (num uint8, n int, err error)
+//@   ensures [ok]   err == nil <==> len(buf) >= 1
+//@   ensures [n]    err == nil ==> n == 1 && num == buf[0]
+//@   ensures [nerr] err != nil ==> n == 0
+//
+//@ func writeUint(buf []byte, num uint64, width int, t Type) (n int, err error)
+//@   requires [width] width == 1 || width == 2 || width == 4 || width == 8
+//@   ensures [ok]   err == nil <==> len(buf) >= width
+//@   ensures [n]    err == nil ==> n == width
+//@   ensures [nerr] err != nil ==> n == 0
+//@   ensures [v1]   err == nil && width == 1 ==> buf[0] == num % 256
+//@   ensures [v2]   err == nil && width == 2 ==> be16(buf, 0) == num % 65536
+//@   modifies buf[0:min(width, len(buf))]
+//
+//@ func writeUint8(buf []byte, num uint8, t Type) (n int, err error)
+//@   ensures [ok]   err == nil <==> len(buf) >= 1
+//@   ensures [n]    err == nil ==> n == 1 && buf[0] == num
+//@   ensures [nerr] err != nil ==> n == 0
+//@   modifies buf[0:min(1, len(buf))]
+//
+//@ func varintLen(n uint64) (l int)
+//@   ensures [len]  n <= 268435455 ==> l == vlen(n)
+//@   ensures [zero] n > 268435455 ==> l == 0
+//
+//@ spec func lim4(b []byte) []byte = len(b) > 4 ? b[0:4] : b
+//@ func readVarint(buf []byte, t Type) (num uint64, n int, err error)
+//@   ensures [ok]   err == nil <==> uvn(lim4(buf)) > 0
+//@   ensures [val]  err == nil ==> n == uvn(lim4(buf)) && num == uvval(lim4(buf), n)
+//@   ensures [nerr] err != nil ==> n == 0 && num == 0
+//
+//@ func writeVarint(buf []byte, num uint64, t Type) (n int, err error)
+//@   ensures [ok]     err == nil <==> num <= 268435455 && len(buf) >= vlen(num)
+//@   ensures [n]      err == nil ==> n == vlen(num)
+//@   ensures [layout] err == nil ==> varint_at(buf, 0, num)
+//@   ensures [nerr]   err != nil ==> n == 0
+//@   modifies buf[0:min(4, len(buf))]
+//
+//@ func readLPBytes(buf []byte, safe bool, t Type) (bytes []byte, n int, err error)
+//@   ensures [ok]    err == nil <==> len(buf) >= 2 && len(buf) >= 2 + be16(buf, 0)
+//@   ensures [n]     err == nil ==> n == 2 + be16(buf, 0) && len(bytes) == be16(buf, 0)
+//@   ensures [nerr]  err != nil ==> 0 <= n && n <= 2 && n <= len(buf)
+//@   ensures [body]  err == nil ==> forall i int {bytes[i]} :: 0 <= i && i < len(bytes) ==> bytes[i] == buf[2+i]
+//@   ensures [fresh] err == nil && safe ==> fresh(bytes)
+//@   ensures [alias] err == nil && !safe ==> arr(bytes) == arr(buf) && off(bytes) == off(buf) + 2
+//
+//@ func readLPString(buf []byte, t Type) (s string, n int, err error)
+//@   ensures [ok]    err == nil <==> len(buf) >= 2 && len(buf) >= 2 + be16(buf, 0)
+//@   ensures [n]     err == nil ==> n == 2 + be16(buf, 0) && len(s) == be16(buf, 0)
+//@   ensures [nerr]  err != nil ==> 0 <= n && n <= 2 && n <= len(buf)
+//@   ensures [body]  err == nil ==> s == str(buf, 2, be16(buf, 0))
+//
+//@ func writeLPBytes(buf []byte, bytes []byte, t Type) (n int, err error)
+//@   requires [room]   len(bytes) <= 65535 ==> len(buf) >= 2 + len(bytes)
+//@   requires [sep]    arr(bytes) != arr(buf)
+//@   ensures [ok]      err == nil <==> len(bytes) <= 65535
+//@   ensures [n]       err == nil ==> n == 2 + len(bytes)
+//@   ensures [nerr]    err != nil ==> n == 0
+//@   ensures [prefix]  err == nil ==> be16(buf, 0) == len(bytes)
+//@   ensures [body]    err == nil ==> forall i int {buf[2+i]} :: 0 <= i && i < len(bytes) ==> buf[2+i] == bytes[i]
+//@   modifies buf[0:min(2 + len(bytes), len(buf))]
+//
+//@ func writeLPString(buf []byte, str string, t Type) (n int, err error)
+//@   requires [room]   len(str) <= 65535 ==> len(buf) >= 2 + len(str)
+//@   ensures [ok]      err == nil <==> len(str) <= 65535
+//@   ensures [n]       err == nil ==> n == 2 + len(str)
+//@   ensures [nerr]    err != nil ==> n == 0
+//@   ensures [prefix]  err == nil ==> be16(buf, 0) == len(str)
+//@   ensures [body]    err == nil ==> forall i int {buf[2+i]} :: 0 <= i && i < len(str) ==> buf[2+i] == str[i]
+//@   modifies buf[0:min(2 + len(str), len(buf))]
+
+// ---------------------------------------------------------------- header.go
+//
+//@ func headerLen(rl int) (n int)
+//@   requires [range] 0 <= rl
+//@   ensures [len]  rl <= 268435455 ==> n == 1 + vlen(rl)
+//@   ensures [big]  rl > 268435455 ==> n == 1
+//
+//@ spec func vbuf(src []byte) []byte = len(src) > 5 ? src[1:5] : src[1:len(src)]
+//@ spec func hlen(src []byte) int = 1 + uvn(vbuf(src))
+//@ spec func rlen(src []byte) int = uvval(vbuf(src), uvn(vbuf(src)))
+//@ spec pred hdr_ok(src []byte, t int) = len(src) >= 2 && src[0]/16 == t && (t == 3 || src[0]%16 == dflags(t)) && uvn(vbuf(src)) > 0 && rlen(src) <= len(src) - hlen(src)
+//
+//@ func decodeHeader(src []byte, t Type) (total int, flags byte, rl int, err error)
+//@   ensures [bound] 0 <= total && total <= len(src) && total <= 5
+//@   ensures [ok]    err == nil <==> hdr_ok(src, t)
+//@   ensures [vals]  err == nil ==> total == hlen(src) && rl == rlen(src) && flags == src[0] % 16 && 0 <= rl && total + rl <= len(src) && total >= 2
+//@   ensures [ezero] err != nil ==> flags == 0 && rl == 0
+//
+//@ spec pred hdr_at(dst []byte, t int, fl int, rl int) = dst[0] == t*16 + fl && varint_at(dst, 1, rl)
+//@ func encodeHeader(dst []byte, flags byte, rl int, tl int, t Type) (n int, err error)
+//@   requires [rl]     0 <= rl
+//@   requires [t]      1 <= t && t <= 14
+//@   requires [flags]  flags <= 15 && (dflags(t) == 0 || flags == 0)
+//@   ensures [ok]      err == nil <==> rl <= 268435455 && len(dst) >= 1 + vlen(rl) && len(dst) >= tl
+//@   ensures [n]       err == nil ==> n == 1 + vlen(rl)
+//@   ensures [nerr]    err != nil ==> n == 0
+//@   ensures [layout]  err == nil ==> hdr_at(dst, t, dflags(t) + flags, rl)
+//@   modifies dst[0:min(5, len(dst))]
+
+// ---------------------------------------------------------------- packet.go
+//
+//@ spec func typecode(p Generic) int = istype(p, *Connect) ? 1 : istype(p, *Connack) ? 2 : istype(p, *Publish) ? 3 : istype(p, *Puback) ? 4 : istype(p, *Pubrec) ? 5 : istype(p, *Pubrel) ? 6 : istype(p, *Pubcomp) ? 7 : istype(p, *Subscribe) ? 8 : istype(p, *Suback) ? 9 : istype(p, *Unsubscribe) ? 10 : istype(p, *Unsuback) ? 11 : istype(p, *Pingreq) ? 12 : istype(p, *Pingresp) ? 13 : istype(p, *Disconnect) ? 14 : 0
+//@ spec pred hasID(p Generic) = 3 <= typecode(p) && typecode(p) <= 11
+//@ spec func idOf(p Generic) int = istype(p, *Publish) ? as(p, *Publish).ID : istype(p, *Puback) ? as(p, *Puback).ID : istype(p, *Pubrec) ? as(p, *Pubrec).ID : istype(p, *Pubrel) ? as(p, *Pubrel).ID : istype(p, *Pubcomp) ? as(p, *Pubcomp).ID : istype(p, *Subscribe) ? as(p, *Subscribe).ID : istype(p, *Suback) ? as(p, *Suback).ID : istype(p, *Unsubscribe) ? as(p, *Unsubscribe).ID : istype(p, *Unsuback) ? as(p, *Unsuback).ID : 0
+//
+// Interface contract of Generic.Type: the 14 implementations below refine it;
+// a foreign implementation of Generic must report a type code that agrees
+// with its dynamic type (assumption, listed in the evidence).
+//@ interface Generic.Type() (t Type)
+//@   ensures [agree] t == typecode($recv)
+//@   modifies nothing
+//
+//@ func (c *Connect) Type() (t Type)
+//@   ensures t == typecode(iface(c, *Connect))
+//@ func (c *Connack) Type() (t Type)
+//@   ensures t == typecode(iface(c, *Connack))
+//@ func (p *Publish) Type() (t Type)
+//@   ensures t == typecode(iface(p, *Publish))
+//@ func (p *Puback) Type() (t Type)
+//@   ensures t == typecode(iface(p, *Puback))
+//@ func (p *Pubrec) Type() (t Type)
+//@   ensures t == typecode(iface(p, *Pubrec))
+//@ func (p *Pubrel) Type() (t Type)
+//@   ensures t == typecode(iface(p, *Pubrel))
+//@ func (p *Pubcomp) Type() (t Type)
+//@   ensures t == typecode(iface(p, *Pubcomp))
+//@ func (s *Subscribe) Type() (t Type)
+//@   ensures t == typecode(iface(s, *Subscribe))
+//@ func (s *Suback) Type() (t Type)
+//@   ensures t == typecode(iface(s, *Suback))
+//@ func (u *Unsubscribe) Type() (t Type)
+//@   ensures t == typecode(iface(u, *Unsubscribe))
+//@ func (u *Unsuback) Type() (t Type)
+//@   ensures t == typecode(iface(u, *Unsuback))
+//@ func (p *Pingreq) Type() (t Type)
+//@   ensures t == typecode(iface(p, *Pingreq))
+//@ func (p *Pingresp) Type() (t Type)
+//@   ensures t == typecode(iface(p, *Pingresp))
+//@ func (d *Disconnect) Type() (t Type)
+//@   ensures t == typecode(iface(d, *Disconnect))
+//
+//@ func GetID(pkt Generic) (id ID, ok bool)
+//@   requires [nonnil] pkt != nil
+//@   requires [object] typecode(pkt) != 0 ==> as(pkt, *Publish) != nil
+//@   ensures [ok]   ok <==> hasID(pkt)
+//@   ensures [id]   ok ==> id == idOf(pkt)
+//@   ensures [noid] !ok ==> id == 0
+//
+//@ func DetectPacket(src []byte) (n int, t Type)
+//@   wrapping
+//@   ensures [short] len(src) < 2 ==> n == 0 && t == 0
+//@   ensures [type]  n > 0 ==> t == src[0] / 16
+
+// ---------------------------------------------------------------- naked.go
+//
+//@ func nakedLen() (n int)
+//@   ensures n == 2
+//@ func nakedDecode(src []byte, t Type) (n int, err error)
+//@   ensures [bound]  0 <= n && n <= len(src)
+//@   ensures [accept] err == nil <==> hdr_ok(src, t) && rlen(src) == 0
+//@   ensures [extent] err == nil ==> n == hlen(src) + rlen(src)
+//@ func nakedEncode(dst []byte, t Type) (n int, err error)
+//@   requires [t] 12 <= t && t <= 14
+//@   ensures [ok]     err == nil <==> len(dst) >= 2
+//@   ensures [count]  err == nil ==> n == 2
+//@   ensures [layout] err == nil ==> dst[0] == t*16 && dst[1] == 0
+//@   modifies dst[0:min(5, len(dst))]
+//
+//@ func (d *Disconnect) Len() (n int)
+//@   ensures n == 2
+//@ func (d *Disconnect) Decode(src []byte) (n int, err error)
+//@   ensures [bound]  0 <= n && n <= len(src)
+//@   ensures [accept] err == nil <==> hdr_ok(src, 14) && rlen(src) == 0
+//@   ensures [extent] err == nil ==> n == hlen(src) + rlen(src)
+//@ func (d *Disconnect) Encode(dst []byte) (n int, err error)
+//@   ensures [ok]     err == nil <==> len(dst) >= 2
+//@   ensures [count]  err == nil ==> n == 2
+//@   ensures [layout] err == nil ==> dst[0] == 224 && dst[1] == 0
+//@   modifies dst[0:min(5, len(dst))]
+//@ func (p *Pingreq) Len() (n int)
+//@   ensures n == 2
+//@ func (p *Pingreq) Decode(src []byte) (n int, err error)
+//@   ensures [bound]  0 <= n && n <= len(src)
+//@   ensures [accept] err == nil <==> hdr_ok(src, 12) && rlen(src) == 0
+//@   ensures [extent] err == nil ==> n == hlen(src) + rlen(src)
+//@ func (p *Pingreq) Encode(dst []byte) (n int, err error)
+//@   ensures [ok]     err == nil <==> len(dst) >= 2
+//@   ensures [count]  err == nil ==> n == 2
+//@   ensures [layout] err == nil ==> dst[0] == 192 && dst[1] == 0
+//@   modifies dst[0:min(5, len(dst))]
+//@ func (p *Pingresp) Len() (n int)
+//@   ensures n == 2
+//@ func (p *Pingresp) Decode(src []byte) (n int, err error)
+//@   ensures [bound]  0 <= n && n <= len(src)
+//@   ensures [accept] err == nil <==> hdr_ok(src, 13) && rlen(src) == 0
+//@   ensures [extent] err == nil ==> n == hlen(src) + rlen(src)
+//@ func (p *Pingresp) Encode(dst []byte) (n int, err error)
+//@   ensures [ok]     err == nil <==> len(dst) >= 2
+//@   ensures [count]  err == nil ==> n == 2
+//@   ensures [layout] err == nil ==> dst[0] == 208 && dst[1] == 0
+//@   modifies dst[0:min(5, len(dst))]
+
+// ---------------------------------------------------------------- identified.go
+//
+//@ spec pred ident_valid(src []byte, t int) = hdr_ok(src, t) && rlen(src) == 2 && be16(src, hlen(src)) != 0
+//@ spec pred ident_layout(dst []byte, t int, id int) = dst[0] == t*16 + dflags(t) && dst[1] == 2 && be16(dst, 2) == id
+//@ func identifiedLen() (n int)
+//@   ensures n == 4
+//@ func identifiedDecode(src []byte, id *ID, t Type) (n int, err error)
+//@   requires [ptr]   id != nil
+//@   ensures [bound]  0 <= n && n <= len(src)
+//@   ensures [accept] err == nil <==> ident_valid(src, t)
+//@   ensures [extent] err == nil ==> n == hlen(src) + rlen(src)
+//@   ensures [id]     err == nil ==> *id == be16(src, hlen(src))
+//@   ensures [keep]   err != nil ==> *id == old(*id)
+//@   modifies *id
+//@ func identifiedEncode(dst []byte, id ID, t Type) (n int, err error)
+//@   requires [t] t == 4 || t == 5 || t == 6 || t == 7 || t == 11
+//@   ensures [ok]     err == nil <==> id != 0 && len(dst) >= 4
+//@   ensures [count]  err == nil ==> n == 4
+//@   ensures [layout] err == nil ==> ident_layout(dst, t, id)
+//@   modifies dst[0:min(5, len(dst))]
+//
+//@ func (p *Puback) Len() (n int)
+//@   ensures n == 4
+//@ func (p *Puback) Decode(src []byte) (n int, err error)
+//@   ensures [bound]  0 <= n && n <= len(src)
+//@   ensures [accept] err == nil <==> ident_valid(src, 4)
+//@   ensures [extent] err == nil ==> n == hlen(src) + rlen(src)
+//@   ensures [id]     err == nil ==> p.ID == be16(src, hlen(src))
+//@   ensures [keep]   err != nil ==> p.ID == old(p.ID)
+//@   modifies p.ID
+//@ func (p *Puback) Encode(dst []byte) (n int, err error)
+//@   ensures [ok]     err == nil <==> p.ID != 0 && len(dst) >= 4
+//@   ensures [count]  err == nil ==> n == 4
+//@   ensures [layout] err == nil ==> ident_layout(dst, 4, p.ID)
+//@   modifies dst[0:min(5, len(dst))]
+//@ func (p *Pubrec) Len() (n int)
+//@   ensures n == 4
+//@ func (p *Pubrec) Decode(src []byte) (n int, err error)
+//@   ensures [bound]  0 <= n && n <= len(src)
+//@   ensures [accept] err == nil <==> ident_valid(src, 5)
+//@   ensures [extent] err == nil ==> n == hlen(src) + rlen(src)
+//@   ensures [id]     err == nil ==> p.ID == be16(src, hlen(src))
+//@   ensures [keep]   err != nil ==> p.ID == old(p.ID)
+//@   modifies p.ID
+//@ func (p *Pubrec) Encode(dst []byte) (n int, err error)
+//@   ensures [ok]     err == nil <==> p.ID != 0 && len(dst) >= 4
+//@   ensures [count]  err == nil ==> n == 4
+//@   ensures [layout] err == nil ==> ident_layout(dst, 5, p.ID)
+//@   modifies dst[0:min(5, len(dst))]
+//@ func (p *Pubrel) Len() (n int)
+//@   ensures n == 4
+//@ func (p *Pubrel) Decode(src []byte) (n int, err error)
+//@   ensures [bound]  0 <= n && n <= len(src)
+//@   ensures [accept] err == nil <==> ident_valid(src, 6)
+//@   ensures [extent] err == nil ==> n == hlen(src) + rlen(src)
+//@   ensures [id]     err == nil ==> p.ID == be16(src, hlen(src))
+//@   ensures [keep]   err != nil ==> p.ID == old(p.ID)
+//@   modifies p.ID
+//@ func (p *Pubrel) Encode(dst []byte) (n int, err error)
+//@   ensures [ok]     err == nil <==> p.ID != 0 && len(dst) >= 4
+//@   ensures [count]  err == nil ==> n == 4
+//@   ensures [layout] err == nil ==> ident_layout(dst, 6, p.ID)
+//@   modifies dst[0:min(5, len(dst))]
+//@ func (p *Pubcomp) Len() (n int)
+//@   ensures n == 4
+//@ func (p *Pubcomp) Decode(src []byte) (n int, err error)
+//@   ensures [bound]  0 <= n && n <= len(src)
+//@   ensures [accept] err == nil <==> ident_valid(src, 7)
+//@   ensures [extent] err == nil ==> n == hlen(src) + rlen(src)
+//@   ensures [id]     err == nil ==> p.ID == be16(src, hlen(src))
+//@   ensures [keep]   err != nil ==> p.ID == old(p.ID)
+//@   modifies p.ID
+//@ func (p *Pubcomp) Encode(dst []byte) (n int, err error)
+//@   ensures [ok]     err == nil <==> p.ID != 0 && len(dst) >= 4
+//@   ensures [count]  err == nil ==> n == 4
+//@   ensures [layout] err == nil ==> ident_layout(dst, 7, p.ID)
+//@   modifies dst[0:min(5, len(dst))]
+//@ func (u *Unsuback) Len() (n int)
+//@   ensures n == 4
+//@ func (u *Unsuback) Decode(src []byte) (n int, err error)
+//@   ensures [bound]  0 <= n && n <= len(src)
+//@   ensures [accept] err == nil <==> ident_valid(src, 11)
+//@   ensures [extent] err == nil ==> n == hlen(src) + rlen(src)
+//@   ensures [id]     err == nil ==> u.ID == be16(src, hlen(src))
+//@   ensures [keep]   err != nil ==> u.ID == old(u.ID)
+//@   modifies u.ID
+//@ func (u *Unsuback) Encode(dst []byte) (n int, err error)
+//@   ensures [ok]     err == nil <==> u.ID != 0 && len(dst) >= 4
+//@   ensures [count]  err == nil ==> n == 4
+//@   ensures [layout] err == nil ==> ident_layout(dst, 11, u.ID)
+//@   modifies dst[0:min(5, len(dst))]
